@@ -111,6 +111,8 @@ type State struct {
 	regions  int
 	allocs   []string // allocation size terms (elements), for the allocation bound
 	pool     map[int][]string // instantiation terms by width, for callee quantifiers
+	qasm     []*qAssume       // quantified assumptions, instantiated again whenever a new term appears
+	inLate   bool
 	loopInits [][2]string     // (havocked loop symbol, its value on loop entry): replay prefers first iterations
 }
 
@@ -165,6 +167,7 @@ func (st *State) fork() *State {
 	n.inputs = append([]inputSym(nil), st.inputs...)
 	n.allocs = append([]string(nil), st.allocs...)
 	n.loopInits = append([][2]string(nil), st.loopInits...)
+	n.qasm = append([]*qAssume(nil), st.qasm...)
 	n.pool = map[int][]string{}
 	for k, v := range st.pool {
 		n.pool[k] = append([]string(nil), v...)
@@ -321,6 +324,11 @@ func sortedKeys(m map[string]bool) []string {
 	return out
 }
 
+type qAssume struct {
+	env  *CEnv
+	expr *CExpr
+}
+
 func (st *State) addPool(w int, t string) {
 	if st.pool == nil {
 		st.pool = map[int][]string{}
@@ -330,7 +338,51 @@ func (st *State) addPool(w int, t string) {
 			return
 		}
 	}
-	if len(st.pool[w]) < 12 {
-		st.pool[w] = append(st.pool[w], t)
+	if len(st.pool[w]) >= 40 {
+		return
 	}
+	st.pool[w] = append(st.pool[w], t)
+	if st.inLate {
+		return
+	}
+	// late instantiation of the quantified assumptions made so far
+	st.inLate = true
+	for _, q := range st.qasm {
+		e2 := *q.env
+		e2.st = st
+		e2.vars = map[string]V{}
+		for k, v := range q.env.vars {
+			e2.vars[k] = v
+		}
+		e2.onlyTerm = map[int]string{w: t}
+		e2.prove = false
+		if c, err := e2.evalBool(q.expr); err == nil {
+			st.assume(c)
+		}
+	}
+	st.inLate = false
+}
+
+// assumeClause assumes a clause and remembers it when it contains a
+// universally quantified part, so that it can be instantiated at terms that
+// appear later (Skolem witnesses of goals, loop counters).
+func (st *State) assumeClause(env *CEnv, e *CExpr) error {
+	env.sawForall = false
+	t, err := env.evalBool(e)
+	if err != nil {
+		return err
+	}
+	st.assume(t)
+	if env.sawForall && !st.inLate {
+		snap := *env
+		snap.vars = map[string]V{}
+		for k, v := range env.vars {
+			snap.vars[k] = v
+		}
+		if snap.curMem == nil {
+			snap.curMem = snapshotMem(st)
+		}
+		st.qasm = append(st.qasm, &qAssume{env: &snap, expr: e})
+	}
+	return nil
 }
